@@ -18,8 +18,9 @@ use crate::formatter::trivia::*;
 
 pub(super) use self::comments::{
     append_trailing_statement_suffix, comment_is_inline_after_anchor,
-    extract_trailing_comment_rendered, has_inline_non_trivia_after, render_comment_with_spacing,
-    render_direct_body_comment, source_order_token_is_trailing_statement_semicolon,
+    extract_trailing_comment_rendered, has_inline_non_trivia_after, next_code_token_is_left_paren,
+    render_comment_with_spacing, render_direct_body_comment,
+    source_order_token_is_trailing_statement_semicolon,
 };
 use self::control::{
     render_do_stat, render_for_range_stat, render_for_stat, render_func_stat, render_if_stat,
@@ -270,7 +271,7 @@ fn render_aligned_block_layout_nodes(
     let mut index = 0usize;
 
     while index < nodes.len() {
-        if layout_node_should_be_skipped_in_block(nodes, index) {
+        if layout_node_should_be_skipped_in_block(root, nodes, index) {
             index += 1;
             continue;
         }
@@ -304,12 +305,30 @@ fn render_aligned_block_layout_nodes(
     docs
 }
 
-fn layout_node_should_be_skipped_in_block(nodes: &[LayoutNodePlan], index: usize) -> bool {
-    matches!(nodes.get(index), Some(LayoutNodePlan::Syntax(syntax_plan)) if syntax_plan.kind == LuaSyntaxKind::EmptyStat)
-        && nodes.iter().enumerate().any(|(other_index, node)| {
-            other_index != index
-                && matches!(node, LayoutNodePlan::Syntax(other_plan) if other_plan.kind != LuaSyntaxKind::EmptyStat)
-        })
+fn layout_node_should_be_skipped_in_block(
+    root: &LuaSyntaxNode,
+    nodes: &[LayoutNodePlan],
+    index: usize,
+) -> bool {
+    let Some(LayoutNodePlan::Syntax(syntax_plan)) = nodes.get(index) else {
+        return false;
+    };
+    if syntax_plan.kind != LuaSyntaxKind::EmptyStat {
+        return false;
+    }
+
+    // `f()` `;(g)()`: this `;` keeps `(g)()` from being parsed as a call on the previous statement.
+    if find_node_by_id(root, syntax_plan.syntax_id)
+        .and_then(|node| node.last_token())
+        .is_some_and(|semicolon| next_code_token_is_left_paren(&semicolon))
+    {
+        return false;
+    }
+
+    nodes.iter().enumerate().any(|(other_index, node)| {
+        other_index != index
+            && matches!(node, LayoutNodePlan::Syntax(other_plan) if other_plan.kind != LuaSyntaxKind::EmptyStat)
+    })
 }
 
 fn try_render_aligned_statement_group(
